@@ -409,3 +409,111 @@ func c05EncodingConsulted(c *Ctx, r *Report) {
 	}
 	r.Floor("R05.12", "functions taking a handle and the encoding flag", n, 1)
 }
+
+// c03NoArgumentArrayMutation (R03.7): a built-in function does not reorder or
+// overwrite the elements of an array it was given.
+func c03NoArgumentArrayMutation(c *Ctx, r *Report) {
+	r.Rule("R03.7", "built-in functions leave their arguments' arrays alone: in package bifs, a slice of values obtained from a *Mlrval parameter (AcquireArrayValue, GetArray, a type assertion of its payload), or a re-slice or merge of one, is never passed to a sorting function (sort.Slice, sort.SliceStable, sort.Sort, slices.Sort…) and none of its slots is stored to — sorting or filling happens on a copy. $m = median($v) must not reorder the field $v")
+	n, nsrc := 0, 0
+	for _, fn := range c.ModuleFunctions() {
+		if fn.Blocks == nil || fn.Pkg == nil || !strings.HasSuffix(fn.Pkg.Pkg.Path(), "/pkg/bifs") {
+			continue
+		}
+		root := fn
+		for root.Parent() != nil {
+			root = root.Parent()
+		}
+		isMlrvalParam := func(v ssa.Value) bool {
+			p, ok := v.(*ssa.Parameter)
+			return ok && isMlrvalPtr(p.Type())
+		}
+		tainted := map[ssa.Value]bool{}
+		changed := true
+		for changed {
+			changed = false
+			for _, b := range fn.Blocks {
+				for _, in := range b.Instrs {
+					v, ok := in.(ssa.Value)
+					if !ok || tainted[v] {
+						continue
+					}
+					t := false
+					switch x := in.(type) {
+					case *ssa.Call:
+						cn := CalleeName(&x.Call)
+						if (strings.HasSuffix(cn, "Mlrval.AcquireArrayValue") || strings.HasSuffix(cn, "Mlrval.GetArray") || strings.HasSuffix(cn, "Mlrval.GetArrayValue")) && len(x.Call.Args) > 0 && isMlrvalParam(x.Call.Args[0]) {
+							t = true
+							nsrc++
+						}
+					case *ssa.Extract:
+						t = tainted[x.Tuple]
+					case *ssa.Slice:
+						t = tainted[x.X]
+					case *ssa.Phi:
+						for _, e := range x.Edges {
+							if tainted[e] {
+								t = true
+							}
+						}
+					case *ssa.ChangeType:
+						t = tainted[x.X]
+					case *ssa.UnOp:
+						// a load from a local cell (a variable captured by a closure) that was assigned a tainted slice
+						if al, ok := x.X.(*ssa.Alloc); ok && x.Op == token.MUL {
+							for _, ref := range *al.Referrers() {
+								if st, ok := ref.(*ssa.Store); ok && st.Addr == ssa.Value(al) && tainted[st.Val] {
+									t = true
+								}
+							}
+						}
+					}
+					if t {
+						tainted[v] = true
+						changed = true
+					}
+				}
+			}
+		}
+		if len(tainted) == 0 {
+			continue
+		}
+		idx := 0
+		for _, b := range fn.Blocks {
+			for _, in := range b.Instrs {
+				switch x := in.(type) {
+				case ssa.CallInstruction:
+					cn := CalleeName(x.Common())
+					if i := strings.Index(cn, "["); i > 0 {
+						cn = cn[:i]
+					}
+					if !(stableSortAPIs[cn] || unstableSortAPIs[cn] || identicalTieSortAPIs[cn]) {
+						continue
+					}
+					args := x.Common().Args
+					if len(args) == 0 {
+						continue
+					}
+					a0 := args[0]
+					if mi, ok := a0.(*ssa.MakeInterface); ok {
+						a0 = mi.X
+					}
+					n++
+					if tainted[a0] {
+						idx++
+						r.Fail("R03.7", fmt.Sprintf("%s sorts an argument's array #%d", SSAName(fn), idx), c.Rel(x.Pos()),
+							fmt.Sprintf("%s passes the slice it obtained from its *Mlrval parameter to %s: the caller's array — a record field that was only read — is reordered in place", SSAName(fn), cn))
+					}
+				case *ssa.Store:
+					if ia, ok := x.Addr.(*ssa.IndexAddr); ok && tainted[ia.X] {
+						idx++
+						n++
+						r.Fail("R03.7", fmt.Sprintf("%s stores into an argument's array #%d", SSAName(fn), idx), c.Rel(x.Pos()),
+							fmt.Sprintf("%s stores into a slot of the slice it obtained from its *Mlrval parameter: the caller's array is altered in place", SSAName(fn)))
+					}
+				}
+			}
+		}
+	}
+	r.OK("R03.7", "arrays taken from arguments in package bifs", "", fmt.Sprintf("%d arrays taken from parameters, %d sort calls and slot stores examined", nsrc, n))
+	r.Floor("R03.7", "arrays taken from parameters", nsrc, 10)
+}
